@@ -62,8 +62,10 @@ CHECKS["C14"] = {
     "rule": ("(1) exhaustive: maxChunk in 0..16 x all lengths 0..48 as consecutive messages of one connection + all ordered pairs of {0,1,c-1,c,c+1,2c,2c+1}, both roles, virtual time. "
              "(2) rapid: sequences of up to 50 messages (lengths up to 300 KiB, chunk up to 64 KiB), with drop/dup/delay scripts, with send deadlines and receive deadlines drawn around "
              "multiples of the RTT so that they expire before/inside/after multi-chunk messages; a timed-out call is retried. Oracle: Recv results are a byte-exact prefix of the offered messages, "
-             "equal to the list of successful Sends when the run completes, and no DATA payload exceeds maxChunk. Non-trivial: a zero-length message, a length within +-1 of a multiple of the chunk size, "
-             "or a deadline that fired inside a message."),
+             "equal to the list of successful Sends when the run completes, and no DATA payload exceeds maxChunk. "
+             "(3) TestC14Polling, REAL time: a receiver that polls (receive deadline 1 ns .. 100 us, retried for ever) while 100-400 small messages (chunk size 0/1/2/7, window 1..100) arrive over a reliable zero-latency link, so that deadlines expire between Recv's select and whatever it does next, a point the fake clock cannot reach; same prefix oracle. "
+             "Non-trivial: a zero-length message, a length within +-1 of a multiple of the chunk size, "
+             "or a deadline that fired inside a message (polling unit: polls timed out during the transfer)."),
     "exhaustive_scope": "maxChunk 0..16 x lengths 0..48 and boundary-length pairs",
     "assumptions": ["one sender and one receiver goroutine per direction"],
     "units": [
